@@ -27,11 +27,16 @@ def gen(src, consts):
     init = [ast.unparse(st) for st in strip_doc(f.body) if isinstance(st, ast.Try)]
     if 'total_bytes_written = 0' not in ast.unparse(f):
         raise ExtractError('write_to_socket: offset initialisation changed')
+    # the write lock is taken unconditionally (no time-out whose expiry would let a writer proceed without it)
+    acq = [ast.unparse(n) for n in ast.walk(f) if isinstance(n, ast.Call) and ast.unparse(n.func) == 'self._wr_lock.acquire']
+    lock_ok = acq == ['self._wr_lock.acquire()']
     return ('namespace Amqp.Gen.Wire\n'
             '/-- the offset into the buffer grows by what send() accepted, inside the try right after the send, and\n'
             '    nowhere else: an EAGAIN or a time-out leaves it where it was; each send starts at the offset -/\n'
             'def countsOnlyAcceptedBytes : Bool := %s\n'
-            'end Amqp.Gen.Wire\n' % str(ok and slice_ok).lower())
+            '/-- `_wr_lock.acquire()` has no time-out and its result need not be tested: nobody writes without the lock -/\n'
+            'def writeLockUnconditional : Bool := %s\n'
+            'end Amqp.Gen.Wire\n' % (str(ok and slice_ok).lower(), str(lock_ok).lower()))
 
 
 FILES = {'Wire.lean': gen}
